@@ -53,6 +53,7 @@ type phiCand struct {
 type boundsProver struct {
 	transMemo map[*ssa.Function]*transparentInfo
 	resMemo   map[string]int
+	foundMemo map[*ssa.Function][]foundContract
 	trueMemo  map[*ssa.Function][]*cmpSummary
 	p         *Prog
 	eng       *Engine
@@ -826,6 +827,49 @@ func (fb *fnBounds) condConstraints(c ssa.Value, pol bool, at ssa.Instruction, d
 							}
 						}
 					}
+					return cs
+				}
+			}
+		}
+		// found == true of an in-module (…, bool) function: what its integer results are known to be at
+		// every return that can say true (positions in an argument, positions in an element of an argument)
+		if call, ok := t.Tuple.(*ssa.Call); ok && pol && call.Call.StaticCallee() != nil && fb.bp.p.InModule(call.Call.StaticCallee()) {
+			callee := call.Call.StaticCallee()
+			if t.Index == callee.Signature.Results().Len()-1 {
+				var cs []constraint
+				results := map[int]ssa.Value{}
+				for _, ref := range *call.Referrers() {
+					if ex, ok := ref.(*ssa.Extract); ok {
+						results[ex.Index] = ex
+					}
+				}
+				for _, fc := range fb.bp.foundContracts(callee) {
+					rv := results[fc.K]
+					if rv == nil || fc.P >= len(call.Call.Args) {
+						continue
+					}
+					why := fmt.Sprintf("%s said true: %s", callee.Name(), fc.desc)
+					switch fc.Kind {
+					case 0:
+						cs = append(cs, geq(linVar(ssaName(rv)), linConst(0), why))
+					case 1:
+						cs = append(cs, gt(fb.lenOf(call.Call.Args[fc.P], at, 0), linVar(ssaName(rv)), why))
+					case 2:
+						rj := results[fc.J]
+						if rj == nil {
+							continue
+						}
+						arg := call.Call.Args[fc.P]
+						sl, ok := arg.Type().Underlying().(*types.Slice)
+						if !ok {
+							continue
+						}
+						cls := "elem:" + sl.Elem().String()
+						name := fmt.Sprintf("len:elem(%s[%s]@%s)", fb.vid(arg, at), linVar(ssaName(rj)).String(), fb.versionAt(cls, at))
+						cs = append(cs, gt(linVar(name), linVar(ssaName(rv)), why))
+					}
+				}
+				if len(cs) > 0 {
 					return cs
 				}
 			}
